@@ -4,6 +4,7 @@ package main
 import (
 	"bytes"
 	"encoding/binary"
+	"encoding/hex"
 	"fmt"
 	"go/ast"
 	"go/token"
@@ -16,6 +17,7 @@ import (
 	"github.com/dolthub/go-mysql-server/sql"
 	"github.com/dolthub/go-mysql-server/sql/encodings"
 	"github.com/dolthub/go-mysql-server/verifharness/hx"
+	"github.com/dolthub/go-mysql-server/verifharness/hx/eng"
 )
 
 func main() { hx.Main(extract, run) }
@@ -369,7 +371,11 @@ func run(a hx.RunArgs) error {
 		if got.tag == tagOK {
 			back := call2(cs.enc.Decode, got.b, nil)
 			if back.tag != tagOK || !bytes.Equal(back.b, s) {
-				out.OracleFail(id, "-", fmt.Sprintf("%s: Encode(%x)=%x but Decode of that is %s", cs.name, s, got.b, back))
+				tag := "-" // inherits the region the model assigns (overflow units are never well-formed UTF-8)
+				if utf8.Valid(s) {
+					tag = "wellformed_roundtrip_failure"
+				}
+				out.OracleFail(id, tag, fmt.Sprintf("%s: Encode(%x)=%x but Decode of that is %s", cs.name, s, got.b, back))
 			}
 		}
 		if utf8.Valid(s) {
@@ -527,8 +533,9 @@ func run(a hx.RunArgs) error {
 				if bad == "" && (r3.tag != tagOK || !bytes.Equal(r3.b, buf) || r4.tag != tagOK || !bytes.Equal(r4.b, buf)) {
 					bad = fmt.Sprintf("%s: bytes %x decode to %x, which encodes to %s / %s", cs.name, buf, r1.b, runeObs(r3), r4)
 				}
-				if bad == "" && !utf8.Valid(r1.b) {
-					bad = fmt.Sprintf("%s: bytes %x decode to %x, which is not UTF-8", cs.name, buf, r1.b)
+				if !utf8.Valid(r1.b) {
+					// e.g. utf8mb3 passes UTF-8 encoded surrogates through; not part of the property (it round-trips)
+					out.Stat("dblk:decoded-text-not-utf8:" + cs.name)
 				}
 			}
 			if bad == "" && (r1.tag == tagCrash || r2.tag == tagCrash) {
@@ -542,6 +549,135 @@ func run(a hx.RunArgs) error {
 		out.StatN("dblk:decodable", n)
 		if bad != "" {
 			out.OracleFail(id, "-", bad)
+		}
+	}
+
+	// --- SQL level ---------------------------------------------------------------------------
+	e := eng.New("d")
+	sqlRes := func(q string) (res, *eng.Res) { // first column of the first row, raw
+		r := e.Query(e.Ctx(), q)
+		switch {
+		case r.Panic != "":
+			return res{tag: tagCrash}, r
+		case r.Err != nil || r.Timeout || len(r.Raw) != 1 || len(r.Raw[0]) < 1:
+			return res{tag: tagFail}, r
+		}
+		switch v := r.Raw[0][0].(type) {
+		case string:
+			return res{tag: tagOK, b: []byte(v)}, r
+		case []byte:
+			return res{tag: tagOK, b: append([]byte(nil), v...)}, r
+		case nil:
+			return res{tag: tagFail}, r
+		}
+		return res{tag: tagOK, b: []byte(fmt.Sprint(r.Raw[0][0]))}, r
+	}
+	unhexRes := func(x res) res {
+		if x.tag != tagOK {
+			return x
+		}
+		b, err := hex.DecodeString(string(x.b))
+		if err != nil {
+			return res{tag: tagOK, b: append([]byte("nothex:"), x.b...)}
+		}
+		return res{tag: tagOK, b: b}
+	}
+	sqlLit := func(s []byte) (string, bool) { // a plain '…' literal; only for well-formed text without quote/backslash/NUL
+		if !utf8.Valid(s) {
+			return "", false
+		}
+		for _, c := range s {
+			if c == '\'' || c == '\\' || c < 0x20 || c == 0x7f {
+				return "", false
+			}
+		}
+		return "'" + string(s) + "'", true
+	}
+	sqlIntro := func(cs charset, b []byte) {
+		got, _ := sqlRes(fmt.Sprintf("SELECT _%s x'%x'", cs.name, b))
+		id := out.Case(hx.List("sqlintro", cs.name, hx.Hex(b)), got.String(), nonASCII(b))
+		out.Stat("sqlintro")
+		if got.tag == tagCrash {
+			out.OracleFail(id, "-", fmt.Sprintf("SELECT _%s x'%x' panics", cs.name, b))
+		}
+		if want := call2(cs.enc.Decode, b, nil); want.String() != got.String() {
+			out.OracleFail(id, "-", fmt.Sprintf("SELECT _%s x'%x' gives %s, Encoder.Decode gives %s", cs.name, b, got, want))
+		}
+	}
+	sqlConv := func(cs charset, s []byte) {
+		lit, ok := sqlLit(s)
+		if !ok {
+			return
+		}
+		conv, _ := sqlRes(fmt.Sprintf("SELECT CONVERT(%s USING %s)", lit, cs.name))
+		hx1, _ := sqlRes(fmt.Sprintf("SELECT HEX(CONVERT(%s USING %s))", lit, cs.name))
+		back, _ := sqlRes(fmt.Sprintf("SELECT CONVERT(CONVERT(%s USING %s) USING utf8mb4)", lit, cs.name))
+		obs := fmt.Sprintf("conv=%s hex=%s back=%s", conv, unhexRes(hx1), back)
+		id := out.Case(hx.List("sqlconv", cs.name, hx.Hex(s)), obs, nonASCII(s))
+		out.Stat("sqlconv")
+		// oracle (MySQL semantics, model free): the round trip gives the text back when every character is representable
+		all := true
+		var enc []byte
+		for _, c := range string(s) {
+			rr := call2(cs.enc.EncodeRune, utf8.AppendRune(nil, c), nil)
+			if rr.tag != tagOK {
+				all = false
+			}
+			enc = append(enc, rr.b...)
+		}
+		if conv.tag == tagCrash || hx1.tag == tagCrash || back.tag == tagCrash {
+			out.OracleFail(id, "-", fmt.Sprintf("CONVERT(%s USING %s) / HEX / CONVERT back: a statement panics (%s)", lit, cs.name, obs))
+		} else if all && (back.tag != tagOK || !bytes.Equal(back.b, s) || unhexRes(hx1).String() != (res{tag: tagOK, b: enc}).String()) {
+			out.OracleFail(id, "-", fmt.Sprintf("every character of %s is representable in %s, but HEX(CONVERT)=%s (want %x) and CONVERT back=%s", lit, cs.name, hx1, enc, back))
+		}
+	}
+	tblMade := map[string]int{}
+	sqlCol := func(cs charset, s []byte) {
+		lit, ok := sqlLit(s)
+		if !ok || cs.name == "binary" {
+			return
+		}
+		if _, ok := tblMade[cs.name]; !ok {
+			e.MustExec(e.Ctx(), fmt.Sprintf("CREATE TABLE t_%s (id INT PRIMARY KEY, c VARCHAR(64) CHARACTER SET %s)", cs.name, cs.name))
+			tblMade[cs.name] = 0
+		}
+		tblMade[cs.name]++
+		k := tblMade[cs.name]
+		ins := e.Query(e.Ctx(), fmt.Sprintf("INSERT INTO t_%s VALUES (%d, %s)", cs.name, k, lit))
+		insObs := "ok"
+		if ins.Panic != "" {
+			insObs = "crash"
+		} else if ins.Err != nil {
+			insObs = "fail"
+		}
+		hx1, _ := sqlRes(fmt.Sprintf("SELECT HEX(c) FROM t_%s WHERE id = %d", cs.name, k))
+		ln, _ := sqlRes(fmt.Sprintf("SELECT LENGTH(c) FROM t_%s WHERE id = %d", cs.name, k))
+		val, _ := sqlRes(fmt.Sprintf("SELECT c FROM t_%s WHERE id = %d", cs.name, k))
+		lnObs := "fail"
+		if ln.tag == tagOK {
+			lnObs = string(ln.b)
+		} else if ln.tag == tagCrash {
+			lnObs = "crash"
+		}
+		obs := fmt.Sprintf("ins=%s hex=%s len=%s val=%s", insObs, unhexRes(hx1), lnObs, val)
+		id := out.Case(hx.List("sqlcol", cs.name, hx.Hex(s)), obs, nonASCII(s))
+		out.Stat("sqlcol")
+		e.Query(e.Ctx(), fmt.Sprintf("DELETE FROM t_%s WHERE id = %d", cs.name, k))
+		all := true
+		var enc []byte
+		for _, c := range string(s) {
+			rr := call2(cs.enc.EncodeRune, utf8.AppendRune(nil, c), nil)
+			if rr.tag != tagOK {
+				all = false
+			}
+			enc = append(enc, rr.b...)
+		}
+		if insObs == "crash" || hx1.tag == tagCrash || ln.tag == tagCrash || val.tag == tagCrash {
+			out.OracleFail(id, "-", fmt.Sprintf("column CHARACTER SET %s holding %s: a statement panics (%s)", cs.name, lit, obs))
+		} else if all && (insObs != "ok" || unhexRes(hx1).String() != (res{tag: tagOK, b: enc}).String() || lnObs != fmt.Sprint(len(enc)) || val.tag != tagOK || !bytes.Equal(val.b, s)) {
+			out.OracleFail(id, "-", fmt.Sprintf("column CHARACTER SET %s holding representable %s: %s (want hex %x)", cs.name, lit, obs, enc))
+		} else if !all && insObs == "ok" && val.tag == tagOK && bytes.Equal(val.b, s) {
+			out.OracleFail(id, "-", fmt.Sprintf("column CHARACTER SET %s accepted %s unchanged although it has an unrepresentable character (neither reported nor replaced)", cs.name, lit))
 		}
 	}
 
@@ -574,6 +710,22 @@ func run(a hx.RunArgs) error {
 		encCase(cs, []byte("\xf4\x90\x80\x80"), nil) // beyond U+10FFFF
 		decCase(cs, []byte{0, 0x11, 0, 0})
 		decCase(cs, []byte{0, 0, 0xd8, 0})
+	}
+	if cs, ok := byName["latin1"]; ok {
+		sqlConv(cs, []byte("\xc3\xa9"))  // HEX(CONVERT('é' USING latin1)) panics; CONVERT back gives E9, not 'é'
+		sqlConv(cs, []byte("\xc4\x80b")) // 'Āb' -> '?'
+		sqlConv(cs, []byte("abc"))
+		sqlCol(cs, []byte("\xc3\xa9"))
+		sqlCol(cs, []byte("\xc4\x80")) // stored unchanged; HEX(c), LENGTH(c) panic
+		sqlIntro(cs, []byte{0xe9})
+		sqlIntro(cs, []byte{0x81})
+	}
+	if cs, ok := byName["utf16"]; ok {
+		sqlConv(cs, []byte("a")) // HEX gives 00000061
+		sqlCol(cs, []byte("a\xc3\xa9\xf0\x9f\x98\x80"))
+		sqlIntro(cs, []byte{0xd8, 0x00})
+		sqlIntro(cs, []byte{0x00, 0x61})
+		sqlIntro(cs, []byte{0x00})
 	}
 	for _, cs := range css {
 		encCase(cs, nil, nil)
@@ -685,9 +837,40 @@ func run(a hx.RunArgs) error {
 		}
 		return s
 	}
-	nStr := 1500
+	nStr, nSQL := 1500, 60
 	if a.Thorough {
-		nStr = 120000
+		nStr, nSQL = 60000, 2000
+	}
+	for _, cs := range css {
+		for i := 0; i < nSQL; i++ {
+			p := pools[cs.name]
+			var s []byte
+			for n := r.Intn(6); n > 0; n-- {
+				switch {
+				case r.Chance(1, 5) && len(p.unrep) > 0:
+					s = utf8.AppendRune(s, hx.Pick(r, p.unrep))
+				case len(p.rep) > 0 && r.Chance(2, 3):
+					s = utf8.AppendRune(s, hx.Pick(r, p.rep))
+				default:
+					s = append(s, byte('a'+r.Intn(26)))
+				}
+			}
+			switch r.Intn(3) {
+			case 0:
+				sqlConv(cs, s)
+			case 1:
+				sqlCol(cs, s)
+			default:
+				b := callRep(cs.enc, s).b
+				if r.Chance(1, 3) && len(b) > 0 {
+					b[r.Intn(len(b))] = byte(r.Intn(256))
+				}
+				if r.Chance(1, 5) && len(b) > 0 {
+					b = b[:len(b)-1]
+				}
+				sqlIntro(cs, b)
+			}
+		}
 	}
 	for _, cs := range css {
 		for i := 0; i < nStr; i++ {
